@@ -45,6 +45,8 @@ type Solver struct {
 	dead    bool
 	scoped  bool
 	pathsSinceSync int
+	keepAsserts bool
+	pathAsserts []string
 }
 
 // NewSolver starts a solver. kind: "z3", "z3-new", "cvc5".
@@ -54,7 +56,11 @@ func NewSolver(kind string, timeoutMs int, log io.Writer) (*Solver, error) {
 	case "z3", "z3-new":
 		cmd = exec.Command(kind, "-in", "-smt2")
 	case "cvc5":
-		cmd = exec.Command("cvc5", "--incremental", "--lang=smt2", "--fp-exp", fmt.Sprintf("--tlimit-per=%d", timeoutMs))
+		cmd = exec.Command("cvc5", "--incremental", "--lang=smt2", "--fp-exp", "--produce-models", fmt.Sprintf("--tlimit-per=%d", timeoutMs))
+	case "cvc5-int":
+		// bit-vector arithmetic translated to integers with exact mod-2^k semantics:
+		// decides linear comparisons over 64-bit words far faster than bit-blasting
+		cmd = exec.Command("cvc5", "--incremental", "--lang=smt2", "--produce-models", "--solve-bv-as-int=sum", fmt.Sprintf("--tlimit-per=%d", timeoutMs))
 	default:
 		return nil, fmt.Errorf("unknown solver %s", kind)
 	}
@@ -76,12 +82,12 @@ func NewSolver(kind string, timeoutMs int, log io.Writer) (*Solver, error) {
 }
 
 func (s *Solver) preamble() {
-	if s.name != "cvc5" {
+	if !strings.HasPrefix(s.name, "cvc5") {
 		s.send(fmt.Sprintf("(set-option :timeout %d)", s.timeout))
+		s.send("(set-option :produce-models true)")
 	} else {
 		s.send("(set-logic ALL)")
 	}
-	s.send("(set-option :produce-models true)")
 }
 
 func (s *Solver) send(cmd string) {
@@ -133,6 +139,8 @@ func (s *Solver) Reset() {
 	}
 	s.send("(push 1)")
 	s.scoped = true
+	s.pathAsserts = s.pathAsserts[:0]
+	s.keepAsserts = os.Getenv("GOSYM_SLOWQ") != ""
 	s.pathsSinceSync++
 	if s.pathsSinceSync >= 64 {
 		// keep the pipe from filling up with unread output and detect errors
@@ -158,6 +166,9 @@ func (s *Solver) Declare(v *Term) {
 }
 
 func (s *Solver) Assert(t *Term) {
+	if s.keepAsserts {
+		s.pathAsserts = append(s.pathAsserts, t.String())
+	}
 	s.send("(assert " + t.String() + ")")
 }
 
@@ -168,7 +179,7 @@ func (s *Solver) Check(extra []*Term, vars []*Term) (solverResult, map[string]ui
 	s.stats.Queries++
 	s.send("(push 1)")
 	for _, e := range extra {
-		s.Assert(e)
+		s.send("(assert " + e.String() + ")")
 	}
 	s.send("(check-sat)")
 	lines := s.sync()
@@ -213,6 +224,15 @@ func (s *Solver) Check(extra []*Term, vars []*Term) (solverResult, map[string]ui
 		s.stats.Unknown++
 	}
 	s.stats.Duration += time.Since(start)
+	if d := time.Since(start); d > 2*time.Second && os.Getenv("GOSYM_SLOWQ") != "" {
+		fmt.Fprintf(os.Stderr, "SLOW QUERY %.1fs result=%d\n", d.Seconds(), res)
+		for _, a := range s.pathAsserts {
+			fmt.Fprintln(os.Stderr, "  (assert "+a+")")
+		}
+		for _, e := range extra {
+			fmt.Fprintln(os.Stderr, "  EXTRA (assert "+e.String()+")")
+		}
+	}
 	return res, model
 }
 
